@@ -247,3 +247,16 @@ func SortedKeys(m map[string]int) []string {
 	sort.Strings(ks)
 	return ks
 }
+
+// SameList compares two string lists element by element (joining would confuse [""] with []).
+func SameList(a, b []string) bool {
+	if len(a) != len(b) {
+		return false
+	}
+	for i := range a {
+		if a[i] != b[i] {
+			return false
+		}
+	}
+	return true
+}
